@@ -131,6 +131,16 @@ pub fn rss_mb() -> u64 {
         .unwrap_or(0)
 }
 
+/// hand freed heap pages back to the system (glibc keeps them otherwise, and the resident size stays high)
+pub fn trim_heap() {
+    extern "C" {
+        fn malloc_trim(pad: usize) -> i32;
+    }
+    unsafe {
+        malloc_trim(0);
+    }
+}
+
 pub struct Clock(Instant);
 impl Clock {
     pub fn start() -> Self {
